@@ -11,8 +11,8 @@
 (***************************************************************************)
 EXTENDS NewickGrammar
 CONSTANTS Quick, MaxLen, PumpK, RecLimit, GenSteps
-VARIABLES inp, pos, tok, nw, ntrees, outcome, depth, gen
-vars == <<inp, pos, tok, nw, ntrees, outcome, depth, gen>>
+VARIABLES inp, pos, tok, nw, ntrees, outcome, depth, gen, tsr
+vars == <<inp, pos, tok, nw, ntrees, outcome, depth, gen, tsr>>
 
 Alpha == StringAlphabet
 A == IF Quick THEN ClassRepsQ("newick") ELSE ClassReps("newick")
@@ -25,31 +25,32 @@ Advance == /\ tok' = TokN(inp, pos, FALSE, 1)
 Stay == UNCHANGED <<tok, pos>>
 
 Init == /\ inp \in (IF GenSteps = 0 THEN Inputs ELSE DocsOf("newick") \cup {<<>>})
+        /\ tsr \in BOOLEAN        \* reader option terminating_semicolon_required
         /\ pos = 1 /\ tok = "" /\ nw = NwIdle /\ ntrees = 0 /\ outcome = "none" /\ depth = 0 /\ gen = GenSteps
 
 \* simulation only: the first GenSteps steps apply random edits (double edits, random strings)
 Generate == /\ gen > 0 /\ gen' = gen - 1
             /\ inp' = RandomElement(SingleEdits(inp, A, {}, 4) \cup {Append(inp, t) : t \in Alpha})
-            /\ UNCHANGED <<pos, tok, nw, ntrees, outcome, depth>>
+            /\ UNCHANGED <<pos, tok, nw, ntrees, outcome, depth, tsr>>
 
 Between ==  \* _parse_tree_statement, before the statement: skip ';', stop at the end of the stream
     /\ gen = 0 /\ outcome = "none" /\ nw.st = "idle"
     /\ IF tok = EOF THEN outcome' = "Ok" /\ Stay /\ UNCHANGED <<nw, depth>>
        ELSE IF tok \in {";", ""} THEN Advance /\ UNCHANGED <<nw, outcome, depth>>
        ELSE nw' = NwBegin(tok) /\ depth' = 1 /\ Stay /\ UNCHANGED outcome
-    /\ UNCHANGED <<inp, ntrees, gen>>
+    /\ UNCHANGED <<inp, ntrees, gen, tsr>>
 Inside ==
     /\ gen = 0 /\ outcome = "none" /\ nw.st = "run"
-    /\ LET n == NwStep(nw, tok) IN
+    /\ LET n == NwStep(nw, tok, tsr) IN
          /\ nw' = n /\ depth' = NwDepth(n)
          /\ IF n.adv = 1 THEN Advance ELSE Stay
          /\ outcome' = IF NwDepth(n) > RecLimit THEN "InternalError" ELSE outcome
-    /\ UNCHANGED <<inp, ntrees, gen>>
+    /\ UNCHANGED <<inp, ntrees, gen, tsr>>
 Finish ==
     /\ gen = 0 /\ outcome = "none" /\ nw.st \in {"ok", "err"}
     /\ IF nw.st = "ok" THEN ntrees' = ntrees + 1 /\ nw' = NwIdle /\ depth' = 0 /\ UNCHANGED outcome
        ELSE outcome' = "ParseError" /\ UNCHANGED <<ntrees, nw, depth>>
-    /\ UNCHANGED <<inp, pos, tok, gen>>
+    /\ UNCHANGED <<inp, pos, tok, gen, tsr>>
 Next == Generate \/ Between \/ Inside \/ Finish
 Spec == Init /\ [][Next]_vars /\ WF_vars(Next)
 
